@@ -33,6 +33,7 @@ def entryOfJson (j : Json) : Except String EntryOp := do
   | "pickle" => pure .pickle
   | "shallowClone" => pure (.shallowClone kw)
   | "fromOtherClass" => pure (.fromOtherClass (← strList j "ignore") kw)
+  | "fromMapping" => pure (.fromMapping (← strList j "ignore") kw)
   | "castTo" => pure .castTo
   | s => throw s!"entry op {s}"
 
